@@ -16,6 +16,17 @@ var VerifTraceHook func(ev string, fields ...interface{})
 // until released or until the stop channel is closed.
 var VerifGateStopHook func(name, id string, stop <-chan struct{})
 
+// VerifLoopGateHook is called at named scheduling points of the replication
+// loops (follower loop, replicator, notifier goroutine, NATS handlers); it gets
+// an id (server or replica) and a stop channel (may be nil) and may block.
+var VerifLoopGateHook func(name, id string, stop <-chan struct{})
+
+func verifLoopGate(name, id string, stop <-chan struct{}) {
+	if h := VerifLoopGateHook; h != nil {
+		h(name, id, stop)
+	}
+}
+
 func verifGateStop(name, id string, stop <-chan struct{}) {
 	if h := VerifGateStopHook; h != nil {
 		h(name, id, stop)
